@@ -47,13 +47,25 @@ pub fn accepted(v: &Value) -> Value {
     }
     let mut added: HashMap<String, Vec<u32>> = HashMap::new();
     let mut expected: u32 = 0;
+    let mut want_tool: BTreeMap<String, u32> = BTreeMap::new();
+    let tool_of = |hash: &str| -> Option<String> {
+        if hash == "aaaaaaaaaaaaaaaa" {
+            Some("cursor::m1".to_string())
+        } else if second_present {
+            Some(if same_tool { "cursor::m1".to_string() } else { "claude::m1".to_string() })
+        } else {
+            None
+        }
+    };
     for f in v["files"].as_array().unwrap() {
         let path = f["path"].as_str().unwrap().to_string();
         let mut fa = FileAttestation::new(path.clone());
         let mut all: Vec<LineRange> = Vec::new();
+        let mut per_entry: Vec<(String, Vec<LineRange>)> = Vec::new();
         for e in f["entries"].as_array().unwrap() {
             let rs = ranges(&e["ranges"]);
             all.extend(rs.clone());
+            per_entry.push((e["hash"].as_str().unwrap().to_string(), rs.clone()));
             fa.add_entry(AttestationEntry::new(e["hash"].as_str().unwrap().to_string(), rs));
         }
         log.attestations.push(fa);
@@ -62,6 +74,14 @@ pub fn accepted(v: &Value) -> Value {
             let covered: BTreeSet<u32> =
                 lines.iter().copied().filter(|l| all.iter().any(|r| r.contains(*l))).collect();
             expected += covered.len() as u32;
+            for l in &covered {
+                // the last entry that lists the line (the one blame reports)
+                if let Some((hash, _)) = per_entry.iter().rev().find(|(_, rs)| rs.iter().any(|r| r.contains(*l))) {
+                    if let Some(t) = tool_of(hash) {
+                        *want_tool.entry(t).or_insert(0) += 1;
+                    }
+                }
+            }
             added.insert(path, lines);
         }
     }
@@ -73,7 +93,12 @@ pub fn accepted(v: &Value) -> Value {
     if second_present && per_tool.values().sum::<u32>() != total {
         failed.push("S1-per-tool-sums-to-total");
     }
-    json!({"total": total, "expected": expected, "per_tool": per_tool, "failed": failed})
+    let mut got_tool = per_tool.clone();
+    got_tool.retain(|_, n| *n != 0);
+    if got_tool != want_tool {
+        failed.push("S1-tool-is-credited-with-its-sessions-lines");
+    }
+    json!({"total": total, "expected": expected, "per_tool": per_tool, "want_per_tool": want_tool, "failed": failed})
 }
 
 pub fn totals(v: &Value) -> Value {
